@@ -46,7 +46,16 @@ def generate(unit, repo):
     return g
 
 
-def run_unit(unit, repo, rlimit=30, seed=None, extra=None, tag=''):
+PERTURB = '''
+// (thorough tier, context perturbation: unused definitions that shift the solver's internal numbering; a proof that flips
+// under this is fragile)
+pub open spec fn vx_dummy_a(m: Map<int, int>) -> Set<int> { m.dom().filter(|a: int| m[a] > 0) }
+pub open spec fn vx_dummy_b(s: Seq<int>) -> Seq<int> { s.filter(|a: int| a > 0).map(|i: int, a: int| a + 1) }
+pub proof fn vx_dummy_l(s: Seq<int>) ensures vx_dummy_b(s).len() >= 0 { }
+'''
+
+
+def run_unit(unit, repo, rlimit=30, seed=None, extra=None, tag='', perturb=False):
     res = UnitResult(unit)
     t0 = time.time()
     try:
@@ -58,7 +67,11 @@ def run_unit(unit, repo, rlimit=30, seed=None, extra=None, tag=''):
     os.makedirs(os.path.join(CACHE, 'gen'), exist_ok=True)
     path = os.path.join(CACHE, 'gen', '%s%s.rs' % (unit, tag))
     with open(path, 'w') as f:
-        f.write(g.text())
+        text = g.text()
+        if perturb:
+            k = text.index('verus! {') + len('verus! {')
+            text = text[:k] + PERTURB + text[k:]
+        f.write(text)
     cmd = ['verus', path, '--output-json', '--time', '--multiple-errors', '50', '--error-format=json',
            '--rlimit', str(rlimit)]
     if seed is not None:
